@@ -102,6 +102,9 @@ type Run struct {
 	Steps       int64             `json:"steps"`
 	Sched       simtask.Stats     `json:"sched"`
 	StepCapHit  bool              `json:"step_cap_hit,omitempty"`
+	// Blocked: the run waited for something that can never happen (a read from
+	// its own standard output).
+	Blocked string `json:"blocked,omitempty"`
 	EnvReads    int               `json:"env_reads,omitempty"`
 }
 
@@ -144,6 +147,10 @@ func RunOnce(mainFn func(), c *Case) (r Run) {
 					return // the logical-time watchdog stopped the run
 				}
 				if _, ok := e.(simos.ExitSentinel); ok || w.Exited {
+					return
+				}
+				if b, ok := e.(simos.BlockedForever); ok {
+					r.Blocked = b.What
 					return
 				}
 				r.Panic = fmt.Sprint(e)
